@@ -168,6 +168,7 @@ func vspecAckType(s message.Type) bool {
 //@   ensures[C13:unknown] !old(haskey(aq.emap, message.vspecPacketID(ifaceval(msg, *message.header).packetID))) || !vspecAckType(old(message.Type(ifaceval(msg, *message.header).mtypeflags[0]>>4))) ==> forall(0, int(aq.size), func(i int) bool { return aq.ring[i].State == old(aq.ring[i].State) && aq.ring[i].Ackbuf == old(aq.ring[i].Ackbuf) })
 //@   ensures[C13:known] old(haskey(aq.emap, message.vspecPacketID(ifaceval(msg, *message.header).packetID))) && vspecAckType(old(message.Type(ifaceval(msg, *message.header).mtypeflags[0]>>4))) ==> aq.ring[old(aq.emap[message.vspecPacketID(ifaceval(msg, *message.header).packetID)])].State == old(message.Type(ifaceval(msg, *message.header).mtypeflags[0]>>4)) && fresh(arr(aq.ring[old(aq.emap[message.vspecPacketID(ifaceval(msg, *message.header).packetID)])].Ackbuf))
 //@   ensures[C13:bufs] preservedarrays(aq.ring[0].Msgbuf)
+//@   ensures[C02:keepid] old(message.vspecPacketID(ifaceval(msg, *message.header).packetID)) != 0 || !old(ifaceval(msg, *message.header).dirty) ==> message.vspecPacketID(ifaceval(msg, *message.header).packetID) == old(message.vspecPacketID(ifaceval(msg, *message.header).packetID))
 //@   modifies elems(aq.ring), aq.ping, ifaceval(msg, *message.header).remlen, ifaceval(msg, *message.header).dirty, ifaceval(msg, *message.header).packetID, message.gPacketID, heap("GF.clock"), heap("GF.mlockedAt")
 
 // Wait: registers a request (PUBLISH QoS>0, SUBSCRIBE, UNSUBSCRIBE by packet id; PINGREQ in the ping slot).
@@ -216,3 +217,17 @@ func vspecAckType(s message.Type) bool {
 //@   ensures[C13:ping] old(vdefP(aq)) == 1 ==> result[0] == old(aq.ping) && aq.ping.State == message.RESERVED
 //@   ensures[C13:bufs] preservedarrays(aq.ring[0].Msgbuf)
 //@   modifies aq.head, aq.count, aq.ackdone, aq.ping, elems(aq.ring), capelems(aq.ackdone), mapof(aq.emap), heap("GF.clock"), heap("GF.mlockedAt")
+
+// Session subscription list (C10): AddTopic/RemoveTopic update exactly one key.
+//@ func (*Session).AddTopic
+//@   results err
+//@   requires !held(addr(s.mu)) && s.topics != nil
+//@   ensures s.initted ==> err == nil && haskey(s.topics, topic) && s.topics[topic] == qos
+//@   ensures !s.initted ==> err != nil
+//@   modifies mapof(s.topics), heap("GF.clock"), heap("GF.mlockedAt")
+//@ func (*Session).RemoveTopic
+//@   results err
+//@   requires !held(addr(s.mu))
+//@   ensures s.initted ==> err == nil && !haskey(s.topics, topic)
+//@   ensures !s.initted ==> err != nil
+//@   modifies mapof(s.topics), heap("GF.clock"), heap("GF.mlockedAt")
